@@ -75,6 +75,12 @@ FAMILIES = [
     ("bcc", _lat_bcc, [["C4z", "C4x", "Inversion"], ["C4z", "Inversion"], ["C4z", "C4x"], ["C4z", "C2x", "Inversion", "TimeReversal"],
                        ["C2z", "C2x", "Inversion"]], "cubic"),
     ("fcc", _lat_fcc, [["C4z", "C4x", "Inversion"], ["C4z", "Inversion"], ["C2z", "C2x"], ["C4z", "C4x", "TimeReversal"]], "cubic"),
+    # low-symmetry groups on lattices whose symmetry operations mix two reciprocal axes with a non-permutation row:
+    # anisotropic grids (N1 != N2) are allowed whenever the group says they are symmetric ("check")
+    ("hexagonal_low", _lat_hex, [["C2x"], ["Mx"], ["C2y", "Mz"], ["Mx", "TimeReversal"], ["C2z", "C2x"], ["TimeReversal*C2x", "Mz"]],
+     "check"),
+    ("centred_rect", lambda a, b, c, s: np.array([[a, 0, 0], [a / 2, b / 2, 0], [0, 0, c]]),
+     [["Mx"], ["C2z", "Mx"], ["My"], ["C2x", "Inversion"], ["TimeReversal*Mx", "C2z"]], "check"),
 ]
 
 
@@ -91,7 +97,8 @@ def draw_symmetry(dec, p, families=None, allow_2d=True):
     lat = latf(a, b, c, s)
     gens = gensets[dec(f"{p}/gens", len(gensets))]
     periodic = [True, True, True]
-    if allow_2d and name in ("triclinic", "monoclinic", "orthorhombic", "tetragonal", "hexagonal", "hexagonal60"):
+    if allow_2d and name in ("triclinic", "monoclinic", "orthorhombic", "tetragonal", "hexagonal", "hexagonal60", "hexagonal_low",
+                             "centred_rect"):
         if dec.chance(f"{p}/2d", 1, 6):
             if name == "triclinic":   # make z orthogonal so that a slab makes sense
                 lat = lat.copy()
@@ -104,6 +111,15 @@ def draw_symmetry(dec, p, families=None, allow_2d=True):
 def draw_NK(dec, p, sym, choices=(1, 2, 3, 4, 5, 6)):
     """three integers compatible with the symmetry constraint (index 0 -> smallest)"""
     n1 = choices[dec(f"{p}/N1", len(choices))]
+    if sym["constraint"] == "check":
+        n = [n1, choices[dec(f"{p}/N2", len(choices))], choices[dec(f"{p}/N3", len(choices))]]
+        n = [ni if per else 1 for ni, per in zip(n, sym["periodic"])]
+        pg = PointGroup(sym["gens"], real_lattice=np.array(sym["real_lattice"], dtype=float))
+        if not pg.symmetric_grid(n):
+            n[1] = n[0]
+            if not pg.symmetric_grid(n):
+                n = [n[0], n[0], n[0]]
+        return [ni if per else 1 for ni, per in zip(n, sym["periodic"])]
     if sym["constraint"] == "cubic":
         n = [n1, n1, n1]
     elif sym["constraint"] == "N1=N2":
